@@ -1,4 +1,5 @@
 import SupervisorModel.Lemmas.CtlSpec
+import SupervisorModel.Lemmas.CtlFwd
 /-
   C20 — supervisorctl reports what the server said.
 
@@ -39,33 +40,45 @@ theorem refused_def (c : Call) : refused c =
     | .ok (.int _) => c.meth == "GET"
     | .ok _ => false := rfl
 
-/-- the calls the partial theorem does not speak about: the HTTP request of `tail -f` (F23) and the result list
-    of stopProcessGroup inside `update` (F26) -/
-theorem excluded_def (a : Action) (c : Call) : excluded a c =
-    (c.meth == "GET" || (a == .update && c.meth == "stopProcessGroup" && isResults c.ans)) := rfl
-
-/-- well-formed argument lists as far as the theorem establishes them (`add`/`remove` without a name are
-    *not* rejected by the code, F24; the argument forms of tail/maintail are covered by correspondence only) -/
-theorem argsOkP_def (a : Action) (arg : String) : argsOkP a arg =
+/-- well-formed argument lists, per action -/
+theorem argsOk_def (a : Action) (arg : String) : argsOk a arg =
     match a with
-    | .start | .stop | .restart | .clear => pySplit arg ≠ []
+    | .start | .stop | .restart | .clear | .add | .remove => pySplit arg ≠ []
     | .signal => 2 ≤ (pySplit arg).length
     | .shutdown | .reload | .version | .reread | .avail => arg = ""
-    | _ => True := rfl
+    | .tail => tailArgsOk (pySplit arg) = true
+    | .maintail => maintailArgsOk (pySplit arg) = true
+    | .status | .pid | .update => True := rfl
+
+/-- `tail [-f | -N] <name> [stdout|stderr]`, `maintail [-f | -N]` -/
+theorem tailArgsOk_def (args : List String) : tailArgsOk args =
+    match args with
+    | [] => false
+    | a0 :: rest =>
+      decide (args.length ≤ 3) &&
+        (if a0.toList.head? == some '-' then modifierOk a0 && tailRestOk rest else tailRestOk args) := rfl
+theorem maintailArgsOk_def (args : List String) : maintailArgsOk args =
+    match args with
+    | [] => true
+    | [a0] => a0.toList.head? == some '-' && modifierOk a0
+    | _ => false := by
+  rcases args with _ | ⟨x, _ | ⟨y, r⟩⟩ <;> rfl
+theorem modifierOk_def (m : String) : modifierOk m =
+    (String.ofList (m.toList.drop 1) == "f" || (pyInt (String.ofList (m.toList.drop 1))).isSome) := rfl
+example : tailArgsOk ["-f", "foo", "stderr"] = true ∧ tailArgsOk ["foo", "bogus"] = false ∧ tailArgsOk ["-x", "foo"] = false ∧
+    tailArgsOk [] = false ∧ maintailArgsOk ["-f"] = true ∧ maintailArgsOk ["foo"] = false := by decide
 
 /-! ## exit status: failure ⇒ non-zero -/
 
-/-- FULL STATEMENT (not provable today):
-      exit = 0 → (∀ c ∈ calls, refused c = false) ∧ argument list well-formed (incl. a name for add/remove).
-    PARTIAL: the calls `excluded a c` (F23: HTTP status of `tail -f`; F26: stop results inside `update`) are not
-    covered, and `add`/`remove` without a name are not shown to be rejected (F24).
-    For every action, every argument string and every answer script: if the invocation ends with exit status 0
-    (and the script fitted the calls), then no request was refused and the arguments were well-formed. -/
-theorem failure_exit_nonzero_partial (a : Action) (arg url : String) (script : List Ans)
+/-- For every action, every argument string and every answer script: if the invocation ends with exit status 0
+    (and the script fitted the calls), then no request the client made was refused or failed -- no ProtocolError
+    (incl. 401), no socket error, no fault other than the four tolerated ones, no result entry other than SUCCESS
+    or the tolerated code, no wrong API version, no HTTP error of `tail -f` -- and the argument list was
+    well-formed.  (F23, F24, F36 were the exceptions; they are fixed in /repo and the theorem is now full.) -/
+theorem failure_exit_nonzero (a : Action) (arg url : String) (script : List Ans)
     (h0 : (protect (a.run arg) (init url script)).p.exit = 0)
     (herr : (protect (a.run arg) (init url script)).err = none) :
-    (∀ c ∈ (protect (a.run arg) (init url script)).p.calls, refused c = false ∨ excluded a c = true) ∧
-    argsOkP a arg := by
+    (∀ c ∈ (protect (a.run arg) (init url script)).p.calls, refused c = false) ∧ argsOk a arg := by
   obtain ⟨_, hp, hc⟩ := safeP_protect (safe_run a arg) (init url script) ⟨h0, herr⟩
   refine ⟨fun c hcm => ?_, hp⟩
   rcases hc c hcm with h | h
@@ -78,11 +91,12 @@ example : (protect (Action.restart.run "foo") (init "u" [.ok (.str "3.0"), .ok (
 
 /-- contrapositive form: a refused request that is not excluded makes the exit status non-zero -/
 theorem refused_call_exit_nonzero (a : Action) (arg url : String) (script : List Ans) (c : Call)
-    (hc : c ∈ (protect (a.run arg) (init url script)).p.calls) (hr : refused c = true) (hx : excluded a c = false)
+    (hc : c ∈ (protect (a.run arg) (init url script)).p.calls) (hr : refused c = true)
     (herr : (protect (a.run arg) (init url script)).err = none) :
     (protect (a.run arg) (init url script)).p.exit ≠ 0 := by
   intro h0
-  rcases (failure_exit_nonzero_partial a arg url script h0 herr).1 c hc with h | h <;> simp_all
+  have := (failure_exit_nonzero a arg url script h0 herr).1 c hc
+  simp_all
 
 example : (protect (Action.start.run "foo") (init "u" [.ok (.str "3.0"), .fault 10 "BAD_NAME: foo"])).p.exit = 1 := by
   decide
@@ -94,22 +108,79 @@ theorem unknown_syntax_exit_nonzero (l : String) (s : S) (h : s.err = none) :
     (unknownSyntax l s).p.exit = 1 ∧ (unknownSyntax l s).outs = s.outs ++ ["*** Unknown syntax: " ++ l] := by
   simp [unknownSyntax, out, emit, setExit, setP, guard, h, ctl_gen]
 
-/-! counterexamples that keep the theorem partial (the code as it is) -/
-/-- F24: `add` / `remove` without a name: nothing printed, exit status 0 -/
-theorem f24_add_remove_without_name :
-    (run "u" "add" []).p.exit = 0 ∧ (run "u" "add" []).outs = [] ∧
-    (run "u" "remove" []).p.exit = 0 ∧ (run "u" "remove" []).outs = [] := by decide
-/-- F23: `tail -f nosuch`: the 404 goes to stderr, the exit status stays 0 -/
-theorem f23_tail_f_http_error :
-    (run "u" "tail -f nosuch" [.ok (.str "3.0"), .ok (.int 404)]).p.exit = 0 ∧
-    (run "u" "tail -f nosuch" [.ok (.str "3.0"), .ok (.int 404)]).p.stderr = true := by decide
-/-- F26: `update` with a changed group whose stop FAILED: "stopped", "updated process group", exit status 0 -/
-theorem f26_update_ignores_failed_stop :
-    (run "u" "update" [.ok (.reload [] ["foo"] []), .ok (.results [⟨"foo", "foo", 30, "FAILED: x"⟩]), .ok .unit, .ok .unit]).p.exit = 0 ∧
-    (run "u" "update" [.ok (.reload [] ["foo"] []), .ok (.results [⟨"foo", "foo", 30, "FAILED: x"⟩]), .ok .unit, .ok .unit]).outs =
-      ["foo: stopped", "foo: updated process group"] := by decide
+/-- the former exceptions, now as the code has them: `add` without a name, `tail -f` of an unknown name, `update`
+    with a failed stop in a changed group -/
+theorem former_findings_exit_nonzero :
+    (run "u" "add" []).p.exit = 1 ∧ (run "u" "remove" []).p.exit = 1 ∧
+    (run "u" "tail -f nosuch" [.ok (.str "3.0"), .ok (.int 404)]).p.exit = 1 ∧
+    (run "u" "update" [.ok (.reload [] ["foo"] []), .ok (.results [⟨"foo", "foo", 30, "FAILED: x"⟩])]).p.exit = 1 ∧
+    (run "u" "update" [.ok (.reload [] ["foo"] []), .ok (.results [⟨"foo", "foo", 30, "FAILED: x"⟩])]).outs =
+      ["foo: stopped", "foo: has problems; not updating"] := by decide
 
-/-! ## exit status: success ⇒ zero (function level and the list forms) -/
+/-! ## exit status: success ⇒ zero -/
+
+/-- the tolerated answer of a method, as used by the action that asks: ALREADY_STARTED for the start requests of
+    start/restart, NOT_RUNNING for the stop requests of stop/restart (and of update), ALREADY_ADDED for add,
+    SHUTDOWN_STATE for shutdown -/
+theorem ownTolerated_def (a : Action) (meth : String) : ownTolerated a meth =
+    match a with
+    | .start => if startMethods.contains meth then some Faults_ALREADY_STARTED else none
+    | .stop => if stopMethods.contains meth then some Faults_NOT_RUNNING else none
+    | .restart => if startMethods.contains meth then some Faults_ALREADY_STARTED
+                  else if stopMethods.contains meth then some Faults_NOT_RUNNING else none
+    | .update => if meth == "stopProcessGroup" then some Faults_NOT_RUNNING else none
+    | .add => if meth == "addProcessGroup" then some Faults_ALREADY_ADDED else none
+    | .shutdown => if meth == "shutdown" then some Faults_SHUTDOWN_STATE else none
+    | _ => none := by cases a <;> rfl
+
+/-- the namespec rules for `status`: which processes a name matches, which are shown, whether every name matched -/
+theorem nameMatches_def (n : String) (i : Info) : nameMatches n i =
+    (i.group == (splitNamespec n).1 && ((splitNamespec n).2 == none || (splitNamespec n).2 == some i.name)) := rfl
+theorem statusShown_def (all : List Info) (names : List String) : statusShown all names =
+    if names.isEmpty || names.contains "all" then all else names.flatMap fun n => all.filter (nameMatches n) := rfl
+theorem statusNamesKnown_def (all : List Info) (names : List String) : statusNamesKnown all names =
+    (names.isEmpty || names.contains "all" || names.all fun n => !(all.filter (nameMatches n)).isEmpty) := rfl
+
+/-- `succeeded a arg c`: the request `c` made by action `a` succeeded -/
+theorem succeeded_def (a : Action) (arg : String) (c : Call) : succeeded a arg c =
+    match c.ans with
+    | .proto _ => false
+    | .sock _ => false
+    | .fault code _ => !listMethods.contains c.meth && some code == ownTolerated a c.meth
+    | .ok (.results rs) => rs.all fun r => r.status == Faults_SUCCESS || some r.status == ownTolerated a c.meth
+    | .ok (.str api) => c.meth != "getVersion" || api == API_VERSION
+    | .ok (.int _) => c.meth != "GET"
+    | .ok (.info i) => a != .pid || i.pid != 0
+    | .ok (.infos all) =>
+      (a != .status || (statusNamesKnown all (pySplit arg) &&
+          (statusShown all (pySplit arg)).all fun i => !STOPPED_STATES.contains i.state)) &&
+      (a != .update || (validOf arg).all fun g => (all.map (·.group)).contains g)
+    | .ok _ => true := rfl
+
+/-- For every action, every well-formed argument string and every answer script: if every request the client made
+    succeeded -- a value of the right API version, result lists whose entries are all SUCCESS or the action's
+    tolerated code, the action's tolerated fault for a per-process request (start of a started process, stop of a
+    process that is not running, add of an active group, shutdown of a daemon that is shutting down), and for
+    `status` every name known and no shown process stopped, for `pid <name>` a running process, for
+    `update <groups>` only known groups -- then the exit status is 0.
+    (What lies between this theorem and `failure_exit_nonzero` -- e.g. `pid` of a stopped process exits 7 -- is
+    left as the code has it.) -/
+theorem all_ok_exit_zero (a : Action) (arg url : String) (script : List Ans) (hargs : argsOk a arg)
+    (h : ∀ c ∈ (protect (a.run arg) (init url script)).p.calls, succeeded a arg c = true) :
+    (protect (a.run arg) (init url script)).p.exit = 0 :=
+  ((fwd_protect (fwd_run a arg hargs)).2 (init url script) ⟨rfl, Or.inl rfl⟩ h).1
+
+-- non-vacuity: the hypotheses are satisfiable with several calls, incl. both tolerated faults of restart
+example : pySplit "foo" ≠ [] ∧
+    ((protect (Action.restart.run "foo") (init "u" [.ok (.str "3.0"), .ok (.str "3.0"),
+      .fault 70 "NOT_RUNNING: foo", .ok (.str "3.0"), .fault 60 "ALREADY_STARTED: foo"])).p.calls.all
+        fun c => succeeded .restart "foo" c) = true ∧
+    (protect (Action.restart.run "foo") (init "u" [.ok (.str "3.0"), .ok (.str "3.0"),
+      .fault 70 "NOT_RUNNING: foo", .ok (.str "3.0"), .fault 60 "ALREADY_STARTED: foo"])).p.calls.length = 5 := by
+  decide
+
+/-! ### function level and the list forms -/
+
 
 /-- Controller.set_exitstatus_from_xmlrpc_fault, completely: SUCCESS and the tolerated code leave the status,
     the DEAD_PROGRAM_FAULTS give NOT_RUNNING (7), everything else GENERIC (1) -/
@@ -160,24 +231,23 @@ theorem line_isSome (tbl : List (Int × Word)) (tmpl : String × String × Strin
     (st : Int) (d : String) : (resultLine tbl tmpl succ g n st d).isSome = (lookupWord tbl st).isSome := by
   simp [resultLine]
 
-/-- FULL STATEMENT (false today, F25): every code the per-process RPC methods can raise has a wording in the
-    table of the action that prints it.  PARTIAL: all of them except SHUTDOWN_STATE. -/
-theorem wording_covers_server_codes_partial :
-    (∀ c ∈ serverCodes_start, c ≠ Faults_SHUTDOWN_STATE → (lookupWord startWording c).isSome) ∧
-    (∀ c ∈ serverCodes_stop, c ≠ Faults_SHUTDOWN_STATE → (lookupWord signalWording c).isSome) ∧
-    (∀ c ∈ serverCodes_signal, c ≠ Faults_SHUTDOWN_STATE → (lookupWord signalWording c).isSome) ∧
-    (∀ c ∈ serverCodes_clear, c ≠ Faults_SHUTDOWN_STATE → (lookupWord clearWording c).isSome) ∧
+/-- every code the per-process RPC methods can raise (read from rpcinterface.py) has a wording in the table of
+    the action that prints it, so `_startresult`/`_signalresult`/`_clearresult` never reach their final `raise`
+    for an answer of the server (F35, SHUTDOWN_STATE, was the exception; fixed in /repo) -/
+theorem wording_covers_server_codes :
+    (∀ c ∈ serverCodes_start, (lookupWord startWording c).isSome) ∧
+    (∀ c ∈ serverCodes_stop, (lookupWord signalWording c).isSome) ∧
+    (∀ c ∈ serverCodes_signal, (lookupWord signalWording c).isSome) ∧
+    (∀ c ∈ serverCodes_clear, (lookupWord clearWording c).isSome) ∧
     (lookupWord startWording Faults_SUCCESS).isSome ∧ (lookupWord signalWording Faults_SUCCESS).isSome ∧
     (lookupWord clearWording Faults_SUCCESS).isSome := by decide
 
-/-- F25: SHUTDOWN_STATE can be raised by every per-process method and has no wording in any table; the
-    `start foo bar` of a daemon that is shutting down prints one `error:` line and never asks for bar -/
-theorem f25_shutdown_state_unhandled :
-    Faults_SHUTDOWN_STATE ∈ serverCodes_start ∧ lookupWord startWording Faults_SHUTDOWN_STATE = none ∧
-    Faults_SHUTDOWN_STATE ∈ serverCodes_stop ∧ lookupWord signalWording Faults_SHUTDOWN_STATE = none ∧
-    Faults_SHUTDOWN_STATE ∈ serverCodes_clear ∧ lookupWord clearWording Faults_SHUTDOWN_STATE = none ∧
-    (run "u" "start foo bar" [.ok (.str "3.0"), .fault 6 "SHUTDOWN_STATE"]).outs = ["error: ValueError"] ∧
-    (run "u" "start foo bar" [.ok (.str "3.0"), .fault 6 "SHUTDOWN_STATE"]).p.calls.length = 2 := by decide
+/-- a daemon that is shutting down: one line per name, every name asked, exit status GENERIC -/
+theorem shutdown_state_one_line_per_name :
+    (run "u" "start foo g:*" [.ok (.str "3.0"), .fault 6 "SHUTDOWN_STATE", .fault 6 "SHUTDOWN_STATE"]).outs =
+      ["foo: ERROR (supervisor shutting down)", "g: ERROR (supervisor shutting down)"] ∧
+    (run "u" "start foo g:*" [.ok (.str "3.0"), .fault 6 "SHUTDOWN_STATE", .fault 6 "SHUTDOWN_STATE"]).p.exit = 1 := by
+  decide
 
 /-- wording corresponds to the status: only SUCCESS is worded as a success; every other status in a table is
     worded `ERROR (...)` or is the server's own description (FAILED) -/
@@ -269,6 +339,119 @@ theorem setExit_spec (n : Int) (s : S) (h : s.err = none) :
     (setExit n s).p.exit = n ∧ (setExit n s).err = none := by
   simp [setExit, setP, guard, h]
 
+theorem g6_eq (st : Int) : onState do_status_g6 st = STOPPED_STATES.contains st := rfl
+
+/-- the last loop of do_status: exit status NOT_RUNNING (3) as soon as one shown process is in a stopped state -/
+theorem markStopped_exit (infos : List Info) (s : S) (h : s.err = none) :
+    (markStopped infos s).err = none ∧
+    (markStopped infos s).p.exit = if infos.any (fun i => STOPPED_STATES.contains i.state) then 3 else s.p.exit := by
+  unfold markStopped
+  induction infos generalizing s with
+  | nil => exact ⟨h, rfl⟩
+  | cons i rest ih =>
+    simp only [List.foldl_cons, List.any_cons]
+    by_cases hi : STOPPED_STATES.contains i.state = true
+    · have hg : onState do_status_g6 i.state = true := by rw [g6_eq]; exact hi
+      rw [if_pos hg]
+      have e := setExit_spec (K do_status_a14) s h
+      have := ih (setExit (K do_status_a14) s) e.2
+      refine ⟨this.1, ?_⟩
+      rw [this.2, e.1]
+      have hk : K do_status_a14 = 3 := by decide
+      rw [hk]
+      simp only [hi, Bool.true_or, if_true]
+      split <;> rfl
+    · have hg : ¬ onState do_status_g6 i.state = true := by rw [g6_eq]; exact hi
+      rw [if_neg hg]
+      have hf : STOPPED_STATES.contains i.state = false := by
+        cases hc : STOPPED_STATES.contains i.state
+        · rfl
+        · exact absurd hc hi
+      simp only [hf, Bool.false_or]
+      exact ih s h
+
+theorem statusName_spec (all : List Info) (n : String) (acc : S × List Info) (h : acc.1.err = none) :
+    (statusName all n acc).1.err = none ∧ (statusName all n acc).2 = acc.2 ++ all.filter (nameMatches n) := by
+  have hf : all.filter (statusMatches (splitNamespec n)) = all.filter (nameMatches n) := by
+    congr 1; funext i; exact statusMatches_eq n i
+  unfold statusName
+  simp only [hf]
+  split
+  · rename_i he
+    refine ⟨?_, by simp [List.isEmpty_iff.1 he]⟩
+    have e1 := out_spec (if onPname do_status_g5 (splitNamespec n).2 = true then (splitNamespec n).1 ++ ": ERROR (no such group)"
+      else n ++ ": ERROR (no such process)") acc.1 h
+    exact (setExit_spec _ _ e1.2.1).2
+  · exact ⟨h, rfl⟩
+
+theorem statusSelect_spec (all : List Info) (names : List String) (acc : S × List Info) (h : acc.1.err = none) :
+    (names.foldl (fun acc n => statusName all n acc) acc).1.err = none ∧
+    (names.foldl (fun acc n => statusName all n acc) acc).2 = acc.2 ++ names.flatMap fun n => all.filter (nameMatches n) := by
+  induction names generalizing acc with
+  | nil => simp [h]
+  | cons n names ih =>
+    simp only [List.foldl_cons, List.flatMap_cons]
+    have e := statusName_spec all n acc h
+    have := ih _ e.1
+    exact ⟨this.1, by rw [this.2, e.2, List.append_assoc]⟩
+
+theorem showStatuses_spec (infos : List Info) (s : S) (h : s.err = none) :
+    (showStatuses infos s).err = none ∧ (showStatuses infos s).p = s.p := by
+  unfold showStatuses outs
+  generalize (infos.map _) = ls
+  induction ls generalizing s with
+  | nil => exact ⟨h, rfl⟩
+  | cons l ls ih =>
+    simp only [List.foldl_cons]
+    have e := out_spec l s h
+    have := ih (out l s) e.2.1
+    exact ⟨this.1, by rw [this.2, e.2.2]⟩
+
+/-- `status` exits 3 when any shown process is in a stopped state: for every argument string, every process table
+    the server answers and whatever else is in the script -/
+theorem status_exit_3 (arg url : String) (all : List Info) (rest : List Ans)
+    (h : (statusShown all (pySplit arg)).any (fun i => STOPPED_STATES.contains i.state) = true) :
+    (protect (Action.status.run arg) (init url (.ok (.str API_VERSION) :: .ok (.infos all) :: rest))).p.exit = 3 := by
+  let s1 : S := { p := { script := rest, calls := [⟨"getVersion", [], .ok (.str API_VERSION)⟩,
+    ⟨"getAllProcessInfo", [], .ok (.infos all)⟩], url := url } }
+  have hrun : Action.status.run arg (init url (.ok (.str API_VERSION) :: .ok (.infos all) :: rest)) =
+      (if onNames do_status_g1 (pySplit arg) = true then markStopped all (showStatuses all s1)
+       else markStopped (statusSelect all (pySplit arg) s1).2
+              (showStatuses (statusSelect all (pySplit arg) s1).2 (statusSelect all (pySplit arg) s1).1)) := by
+    simp [Action.run, doStatus, upcheck, rpc, guard, init, s1, ctl_gen]
+  have key : (Action.status.run arg (init url (.ok (.str API_VERSION) :: .ok (.infos all) :: rest))).err = none ∧
+      (Action.status.run arg (init url (.ok (.str API_VERSION) :: .ok (.infos all) :: rest))).p.exit = 3 := by
+    rw [hrun]
+    by_cases hall : onNames do_status_g1 (pySplit arg) = true
+    · rw [if_pos hall]
+      have hsh : statusShown all (pySplit arg) = all := by
+        unfold statusShown
+        have : ((pySplit arg).isEmpty || (pySplit arg).contains "all") = true := by simpa [ctl_gen] using hall
+        simp only [this, if_true]
+      rw [hsh] at h
+      have e1 := showStatuses_spec all s1 rfl
+      have e2 := markStopped_exit all _ e1.1
+      exact ⟨e2.1, by rw [e2.2, h]; rfl⟩
+    · rw [if_neg hall]
+      have hnall : ((pySplit arg).isEmpty || (pySplit arg).contains "all") = false := by
+        cases hh : ((pySplit arg).isEmpty || (pySplit arg).contains "all")
+        · rfl
+        · exact absurd (by simpa [ctl_gen] using hh) hall
+      have hsh : statusShown all (pySplit arg) = (pySplit arg).flatMap fun n => all.filter (nameMatches n) := by
+        unfold statusShown; simp only [hnall, Bool.false_eq_true, if_false]
+      rw [hsh] at h
+      have e0 := statusSelect_spec all (pySplit arg) (s1, []) rfl
+      have e0' : (statusSelect all (pySplit arg) s1).2 = (pySplit arg).flatMap fun n => all.filter (nameMatches n) := by
+        unfold statusSelect; rw [e0.2]; simp
+      have e1 := showStatuses_spec (statusSelect all (pySplit arg) s1).2 (statusSelect all (pySplit arg) s1).1 e0.1
+      have e2 := markStopped_exit (statusSelect all (pySplit arg) s1).2 _ e1.1
+      exact ⟨e2.1, by rw [e2.2, e0', h]; rfl⟩
+  have hp : protect (Action.status.run arg) (init url (.ok (.str API_VERSION) :: .ok (.infos all) :: rest)) =
+      Action.status.run arg (init url (.ok (.str API_VERSION) :: .ok (.infos all) :: rest)) := by
+    simp only [protect, key.1, net]
+  rw [hp]; exact key.2
+
+
 /-- end to end for `status` without names -/
 example : (run "u" "status" [.ok (.str "3.0"), .ok (.infos [⟨"a", "a", 20, "RUNNING", "", 5⟩, ⟨"b", "b", 0, "STOPPED", "", 0⟩])]).p.exit = 3 := by
   decide
@@ -348,14 +531,99 @@ theorem namespec_group_name (g p : String) (h : ':' ∉ g.toList) (hp : p ≠ ""
   have h2 : p.toList ≠ ['*'] := fun e => hs (by rw [← String.ofList_toList (s := p), e])
   simp [splitNamespec, this, splitColon_first _ _ h, String.ofList_toList, h1, h2]
 
-/-- `all` anywhere in the list selects everything with one request; otherwise one request per name:
-    the group request for `group:*`, the process request for a name -/
-theorem namespec_selection_start (names : List String) :
-    startNames names =
-      if names.contains "all" then
-        rpc "startAllProcesses" [] (expectResults (printResults startLine (some Faults_ALREADY_STARTED))) raiseFault raiseSock
-      else fun s => names.foldl (fun s n => startOne n s) s := by
-  unfold startNames; simp [ctl_gen]
+/-- which request a name selects: the group request with the group name for `group:*` / `group:`, the
+    per-process request with the name as given otherwise -/
+def selected (single group : String) (extra : List String) (n : String) : String × List String :=
+  if (splitNamespec n).2.isNone then (group, (splitNamespec n).1 :: extra) else (single, n :: extra)
+
+theorem selection_startOne (n : String) (s : S) (a : Ans) (rest : List Ans) (herr : s.err = none)
+    (hs : s.p.script = a :: rest) :
+    (startOne n s).p.calls = s.p.calls ++
+      [⟨(selected "startProcess" "startProcessGroup" [] n).1, (selected "startProcess" "startProcessGroup" [] n).2, a⟩] := by
+  unfold startOne selected; (try dsimp only)
+  have hg : onPname do_start_g3 (splitNamespec n).2 = (splitNamespec n).2.isNone := rfl
+  rw [hg]
+  split
+  · exact rpc_calls (fun v => keeps_expectResults (fun rs => keeps_printResults _ _ rs) v) (fun c t => by keeps_straight)
+      (fun e => keeps_raise _) s a rest herr hs
+  · exact rpc_calls (fun v => keeps_expectUnit (keeps_out _) v) (fun c t => keeps_printOne _ _ _ _ _ _)
+      (fun e => keeps_raise _) s a rest herr hs
+
+theorem selection_stopOne (n : String) (s : S) (a : Ans) (rest : List Ans) (herr : s.err = none)
+    (hs : s.p.script = a :: rest) :
+    (stopOne n s).p.calls = s.p.calls ++
+      [⟨(selected "stopProcess" "stopProcessGroup" [] n).1, (selected "stopProcess" "stopProcessGroup" [] n).2, a⟩] := by
+  unfold stopOne selected; (try dsimp only)
+  have hg : onPname do_stop_g3 (splitNamespec n).2 = (splitNamespec n).2.isNone := rfl
+  rw [hg]
+  split
+  · exact rpc_calls (fun v => keeps_expectResults (fun rs => keeps_printResults _ _ rs) v) (fun c t => by keeps_straight)
+      (fun e => keeps_raise _) s a rest herr hs
+  · exact rpc_calls (fun v => keeps_expectUnit (keeps_out _) v) (fun c t => keeps_printOne _ _ _ _ _ _)
+      (fun e => keeps_raise _) s a rest herr hs
+
+theorem selection_signalOne (sig n : String) (s : S) (a : Ans) (rest : List Ans) (herr : s.err = none)
+    (hs : s.p.script = a :: rest) :
+    (signalOne sig n s).p.calls = s.p.calls ++
+      [⟨(selected "signalProcess" "signalProcessGroup" [sig] n).1, (selected "signalProcess" "signalProcessGroup" [sig] n).2, a⟩] := by
+  unfold signalOne selected; (try dsimp only)
+  have hg : onPname do_signal_g3 (splitNamespec n).2 = (splitNamespec n).2.isNone := rfl
+  rw [hg]
+  split
+  · exact rpc_calls (fun v => keeps_expectResults (fun rs => keeps_printResults _ _ rs) v) (fun c t => by keeps_straight)
+      (fun e => keeps_raise _) s a rest herr hs
+  · exact rpc_calls (fun v => keeps_expectUnit (keeps_out _) v) (fun c t => keeps_printOne _ _ _ _ _ _)
+      (fun e => keeps_raise _) s a rest herr hs
+
+/-- `clear` has no group form: every name is passed to clearProcessLogs as given -/
+theorem selection_clearOne (n : String) (s : S) (a : Ans) (rest : List Ans) (herr : s.err = none)
+    (hs : s.p.script = a :: rest) :
+    (clearOne n s).p.calls = s.p.calls ++ [⟨"clearProcessLogs", [n], a⟩] := by
+  unfold clearOne; (try dsimp only)
+  exact rpc_calls (fun v => keeps_expectUnit (keeps_out _) v) (fun c t => keeps_printOne _ _ _ _ _ _)
+    (fun e => keeps_raise _) s a rest herr hs
+
+/-- `all` anywhere among the names: one request for everything -/
+theorem selection_all (names : List String) (h : names.contains "all" = true) (sig : String) (s : S) (a : Ans)
+    (rest : List Ans) (herr : s.err = none) (hs : s.p.script = a :: rest) :
+    (startNames names s).p.calls = s.p.calls ++ [⟨"startAllProcesses", [], a⟩] ∧
+    (stopNames names s).p.calls = s.p.calls ++ [⟨"stopAllProcesses", [], a⟩] ∧
+    (signalNames sig names s).p.calls = s.p.calls ++ [⟨"signalAllProcesses", [sig], a⟩] ∧
+    (clearNames names s).p.calls = s.p.calls ++ [⟨"clearAllProcessLogs", [], a⟩] := by
+  have h1 : onNames do_start_g2 names = true := h
+  have h2 : onNames do_stop_g2 names = true := h
+  have h3 : onNames do_signal_g2 names = true := h
+  have h4 : onNames do_clear_g2 names = true := h
+  refine ⟨?_, ?_, ?_, ?_⟩
+  · unfold startNames; rw [if_pos h1]
+    exact rpc_calls (fun v => keeps_expectResults (fun rs => keeps_printResults _ _ rs) v) (fun c t => keeps_raise _)
+      (fun e => keeps_raise _) s a rest herr hs
+  · unfold stopNames; rw [if_pos h2]
+    exact rpc_calls (fun v => keeps_expectResults (fun rs => keeps_printResults _ _ rs) v) (fun c t => keeps_raise _)
+      (fun e => keeps_raise _) s a rest herr hs
+  · unfold signalNames; rw [if_pos h3]
+    exact rpc_calls (fun v => keeps_expectResults (fun rs => keeps_printResults _ _ rs) v) (fun c t => keeps_raise _)
+      (fun e => keeps_raise _) s a rest herr hs
+  · unfold clearNames; rw [if_pos h4]
+    exact rpc_calls (fun v => keeps_expectResults (fun rs => keeps_printResults _ _ rs) v) (fun c t => keeps_raise _)
+      (fun e => keeps_raise _) s a rest herr hs
+
+/-- without `all`: the names are handled one after the other, in the order given -/
+theorem selection_each (names : List String) (h : names.contains "all" = false) (sig : String) (s : S) :
+    startNames names s = names.foldl (fun s n => startOne n s) s ∧
+    stopNames names s = names.foldl (fun s n => stopOne n s) s ∧
+    signalNames sig names s = names.foldl (fun s n => signalOne sig n s) s ∧
+    clearNames names s = names.foldl (fun s n => clearOne n s) s := by
+  have h1 : ¬ onNames do_start_g2 names = true := by rw [show onNames do_start_g2 names = names.contains "all" from rfl, h]; simp
+  have h2 : ¬ onNames do_stop_g2 names = true := by rw [show onNames do_stop_g2 names = names.contains "all" from rfl, h]; simp
+  have h3 : ¬ onNames do_signal_g2 names = true := by rw [show onNames do_signal_g2 names = names.contains "all" from rfl, h]; simp
+  have h4 : ¬ onNames do_clear_g2 names = true := by rw [show onNames do_clear_g2 names = names.contains "all" from rfl, h]; simp
+  refine ⟨?_, ?_, ?_, ?_⟩
+  · unfold startNames; rw [if_neg h1]
+  · unfold stopNames; rw [if_neg h2]
+  · unfold signalNames; rw [if_neg h3]
+  · unfold clearNames; rw [if_neg h4]
+
 
 example : (run "u" "start g:* foo" [.ok (.str "3.0"), .ok (.results []), .ok .unit]).p.calls.map renderCall =
     ["getVersion()", "startProcessGroup(g)", "startProcess(foo)"] := by decide
